@@ -76,15 +76,67 @@ func c01Sizes(c *Ctx) {
 	c.Witness("larger_feed")
 }
 
+// c01LargeMembers: members of more than 1 MiB / 8 MiB whose text is highly repetitive (every
+// stop carries the same long description, every stop time the same headsign), stored and
+// deflated (compression ratios beyond 100:1): compression is presentation, not content.
+func c01LargeMembers(c *Ctx) {
+	rows := []int{600, 2500}[c.Free("rows", 2)]
+	textLen := []int{2100, 4200}[c.Free("text_bytes_per_row", 2)]
+	which := c.Free("member", 2) // 0 stops.txt (stop_desc), 1 stop_times.txt (stop_headsign)
+	deflate := c.Free("deflate", 2) == 1
+	n := baseCounts
+	n.stops, n.stopTimes = 5, 8
+	if which == 0 {
+		n.stops = rows
+	} else {
+		n.stopTimes = rows
+	}
+	m := genStaticFeedN(c, false, n, nil, nil)
+	sentence := "This stop is served by all routes listed on the agency web site; please check the timetable. "
+	text := ""
+	for len(text) < textLen {
+		text += sentence
+	}
+	file, col := "stops.txt", "stop_desc"
+	if which == 1 {
+		file, col = "stop_times.txt", "stop_headsign"
+	}
+	t := m.t(file)
+	for r := range t.Rows {
+		t.set(r, col, text)
+	}
+	p := presentation{Deflate: deflate}
+	b := renderFeed(m, p)
+	desc := fmt.Sprintf("%s with %d rows x %d bytes of repetitive text, deflate=%v (archive %d bytes)", file, rows, len(text), deflate, len(b))
+	c.Input(hash64(desc), true, func() string { return desc })
+	r, err, ok := parseStaticGuarded(c, b, gtfs.ParseStaticOptions{})
+	if !ok {
+		return
+	}
+	c.Steps(len(m.Tables))
+	if err != nil {
+		c.Fail("valid-feed-rejected", "ParseStatic rejected a well-formed feed (%s): %v", desc, err)
+		return
+	}
+	want := refStatic(m, refStaticOpts{})
+	o := staticDumpOpts{sortServices: true}
+	wd, gd := dumpStatic(want, o), dumpStatic(r, o)
+	c.Outcome(fmt.Sprint(hash64(gd)))
+	if wd != gd {
+		c.Fail("transcription:"+firstDiffKind(wd, gd), "result differs from the rows of the feed (%s)\n%s", desc, diffLines(wd, gd))
+	}
+	c.Witness("member_larger_than_1MiB")
+}
+
 func init() {
 	register(&Check{
 		ID:    "C01",
 		Level: "model_checking",
-		Rule: "well-formed feeds within k deviations of a 10-file base feed: row count of each table (0-6), every cell over its kind's alphabet (texts: space / comma+quote / non-ASCII / embedded LF / blank; all enum digits; times 00:00:00, 4:05:06, 25:10:05, 47:59:59; decimals 0, 1.5, -73.25, ' 2.5 ', 1e-3, blank; ints 0, -5, 2147483647, blank; dates incl. DST days, leap day, 00010101 and 99991231; 9 agency zones incl. unknown, names without a slash (Japan, EST5EDT) and zones whose DST switches precede UTC midnight (Sydney, Lord Howe) with their switch days; values starting with '#'; 'the same value as the row above' for text, time, decimal and colour cells; extra members in sub-folders named like supported tables), id spellings, x 9 presentation dimensions (column order, unknown column position, extra files, member order, deflate, BOM, CRLF, trailing newline, full quoting); quick k<=2, plus feeds of 5..257 rows per table x <= 2 presentation deviations; thorough additionally the full presentation product (1152) x k<=1; " +
+		Rule: "well-formed feeds within k deviations of a 10-file base feed: row count of each table (0-6), every cell over its kind's alphabet (texts: space / comma+quote / non-ASCII / embedded LF / blank; all enum digits; times 00:00:00, 4:05:06, 25:10:05, 47:59:59; decimals 0, 1.5, -73.25, ' 2.5 ', 1e-3, blank; ints 0, -5, 2147483647, blank; dates incl. DST days, leap day, 00010101 and 99991231; 9 agency zones incl. unknown, names without a slash (Japan, EST5EDT) and zones whose DST switches precede UTC midnight (Sydney, Lord Howe) with their switch days; values starting with '#'; 'the same value as the row above' for text, time, decimal and colour cells; extra members in sub-folders named like supported tables), id spellings, x 9 presentation dimensions (column order, unknown column position, extra files, member order, deflate, BOM, CRLF, trailing newline, full quoting); quick k<=2, plus members of 1.2 - 10 MiB of repetitive text, stored and deflated; plus feeds of 5..257 rows per table x <= 2 presentation deviations; thorough additionally the full presentation product (1152) x k<=1; " +
 			"non-trivial = every distinct archive; oracle = reference interpretation of the tables",
 		Assumptions: []string{"archive/zip and the harness CSV writer are trusted as renderer", "location_type 0 with a parent is a platform, as the library's enum documents", "optional default-bearing fields are written explicitly (blank/absent is C10)"},
 		Scenarios: func(tier string) []*Scenario {
-			s := []*Scenario{{Name: "cells+presentation", Bound: 2, Run: c01Harness(false)}, {Name: "sizes", Bound: 2, Run: c01Sizes}}
+			s := []*Scenario{{Name: "cells+presentation", Bound: 2, Run: c01Harness(false)}, {Name: "sizes", Bound: 2, Run: c01Sizes}, {Name: "large-members", Bound: -1, Run: c01LargeMembers}}
 			if tier == "thorough" {
 				s = append(s, &Scenario{Name: "all-presentations-x-cell", Bound: 1, Run: c01Harness(true)})
 			}
